@@ -750,6 +750,9 @@ class Engine:
                 else self.seq_eq(ctx, self.as_seq(ctx, a), self.as_seq(ctx, b))
         if isinstance(a, Obj) and isinstance(b, Obj):
             return z3.BoolVal(a.name == b.name)
+        from .externals import SetV
+        if isinstance(a, SetV) and isinstance(b, SetV):
+            return a.arr == b.arr
         if isinstance(a, Ref) or isinstance(b, Ref):
             return self.to_v(ctx, a) == self.to_v(ctx, b)
         raise Unsupported('equality of %r and %r' % (a, b))
